@@ -63,6 +63,10 @@ theorem finish_repeatable (env : Env) (w : World) (h : Nat) :
     (step env (step env w (.finish h)).1 (.finish h)).2 = (step env w (.finish h)).2 := by
   rw [observer_world env w (.finish h) rfl]
 
+/-- non-vacuity of `clone_independent`: a history on the clone (handle 2) never names the original (handle 0) -/
+example : ∀ op ∈ ([.append 2 [1, 2], .finish 2, .fin 2 .w64] : List Op), op.isReset = false ∧ 0 ∉ op.handles := by
+  simp [Op.isReset, Op.handles]
+
 example : (Op.ckpt 3).isObserver = true ∧ (Op.append 3 []).isObserver = false := ⟨rfl, rfl⟩
 
 end HH.C13
